@@ -53,7 +53,7 @@ PLANS = {
         'deadline': {'quick': 420, 'thorough': 2400},
         'jobs': [
             job('retry', 'retry', 'C06', {'quick': 4, 'thorough': 5}, {'quick': 1, 'thorough': 1},
-                wit=['c06_retransmission', 'c06_budget_exhausted', 'c06_gap_checked', 'policy_alternatives', 'fault_fired']),
+                wit=['c06_retransmission', 'c06_budget_exhausted', 'c06_gap_checked', 'c06_tc_upgrade_seen', 'c06_edns_downgrade_seen', 'policy_alternatives', 'fault_fired']),
             job('retry-long', 'retry-long', 'C06', 1, 0, wit=['c06_budget_exhausted'], min_outcomes=1, shards=1),
             job('retry-gai', 'retry-gai', 'C06', {'quick': 5, 'thorough': 6}, 0, wit=['c06_tc_upgrade_seen', 'c06_retransmission']),
         ],
